@@ -28,8 +28,9 @@ func Check05(c CaseHist, r *core.Rec) {
 			continue
 		}
 		before := mu.Href()
-		out := Model.Set(mu, op.Setter, string(op.Value))
-		ApplySetter(iu, op.Setter, string(op.Value))
+		val := valueFor(iu, op)
+		out := Model.Set(mu, op.Setter, val)
+		ApplySetter(iu, op.Setter, val)
 		oc := string(out)
 		r.Class("setter:" + spec.SetterNames[op.Setter] + ":" + oc)
 		if prevSetter >= 0 {
